@@ -28,7 +28,7 @@ Definition ex_cold : state := fst (fst (run_prog ex_s0 [OInit 0; OLoad 0 ex_cfg]
 Definition every_cop : list cop :=
   [CTraverse; CTypePrint; CDistGet; CDistRelease; CMaMeta; CMaGet QValue 2; CMaGet QBestTarget 3;
    CMaGet QBestInitiator 4; CMaGet QTargets 8; CMaGet QInitiators 5; CMaGet QValue 0; CLocalNodes;
-   CCpukinds; CSets; CBitmap; CExportXml; CExportSynth].
+   CCpukinds; CSets; CBitmap; CExportXml; CExportSynth false].
 Definition ex_reader : list op := map (OCons 0) every_cop.
 
 Example ex_state_meets_hypotheses :
@@ -61,17 +61,21 @@ Qed.
 Print Assumptions refresh_validates_nomemattr_refuted.
 
 (* ---------------------------------------------------------------- *)
-(* the end of hwloc_topology_load: everything valid - unless a RESTRICT_TO_*BINDING restrict ran after the refresh *)
-Theorem load_ends_valid_partial : forall t c,
-  c_bind_restrict c = None ->
+(* the end of hwloc_topology_load: loaded and everything valid, for every flag combination, whatever the
+   discovery registered, whether or not a RESTRICT_TO_*BINDING restrict ran.  (Before fix 970d793 the
+   restrict ran after the last refresh and this was refuted; corpus/c17/load-restrict-to-cpubinding.case.) *)
+Theorem load_ends_valid : forall t c,
   t_loaded (fst (load_run t c)) = true /\ topo_valid (fst (load_run t c)) = true.
-Proof. exact EventsProofs.load_ends_valid_partial. Qed.
-Print Assumptions load_ends_valid_partial.
+Proof. exact EventsProofs.load_ends_valid. Qed.
+Print Assumptions load_ends_valid.
 
-Theorem load_ends_valid_refuted :
-  exists c, t_loaded (fst (load_run 0 c)) = true /\ topo_valid (fst (load_run 0 c)) = false.
-Proof. exists (mkCfg false false false [] 0 (Some []) false). vm_compute. split; reflexivity. Qed.
-Print Assumptions load_ends_valid_refuted.
+(* regression witness: the configuration that used to end invalid; the restrict does invalidate
+   (six CACHE_VALID bits cleared in the event list), the added refresh sets them again *)
+Example load_with_binding_restrict_regression :
+  let c := mkCfg false false false [4; 3] 0 (Some (Some [2; 1])) false in
+  topo_valid (fst (load_run 0 c)) = true /\ length (t_dists (fst (load_run 0 c))) = 1 /\
+  length (filter (fun e => match e_loc e with LMaFlags _ _ => e_wr e && Nat.eqb (e_val e) 0 | _ => false end) (snd (load_run 0 c))) = 12.
+Proof. vm_compute. repeat split; reflexivity. Qed.
 
 (* ---------------------------------------------------------------- *)
 (* EVERY consulting call of the model, on a state whose loaded topologies are all valid: nothing is
@@ -84,9 +88,9 @@ Proof. exact EventsProofs.run_op_reader. Qed.
 Print Assumptions valid_reader_writes_nothing_partial.
 
 Theorem valid_reader_writes_nothing_nonexport : forall s t c,
-  all_valid s = true -> uses_statics c = false ->
+  all_valid s = true -> uses_statics c = false -> always_writes c = false ->
   fst (fst (run_op s (OCons t c))) = s /\ writes (snd (run_op s (OCons t c))) = [].
-Proof. intros s t c V U. apply EventsProofs.run_op_reader; [exact V|]. simpl. rewrite U. reflexivity. Qed.
+Proof. intros s t c V U A. apply EventsProofs.run_op_reader; [exact V|]. simpl. rewrite U, A. reflexivity. Qed.
 Print Assumptions valid_reader_writes_nothing_nonexport.
 
 (* the full statement is false: the first XML export on a freshly loaded, fully valid topology writes *)
@@ -156,17 +160,28 @@ Print Assumptions env_cache_first_use_races_refuted.
    threads, any mix of consulting calls including exports *)
 Theorem env_cache_first_use_races_partial : forall s progs il,
   all_valid s = true -> statics_warm (s_glob s) = true ->
-  (forall p, In p progs -> all_cons p = true) ->
+  (forall p, In p progs -> forallb (fun o => match o with OCons _ c => negb (always_writes c) | _ => false end) p = true) ->
   is_interleaving (map (events_of s) progs) il -> race_free il.
 Proof.
   intros s progs il V W C Hil.
   assert (R : forall p, In p progs -> readers_ok (s_glob s) p = true).
-  { intros p Hp. specialize (C p Hp). unfold all_cons in C. unfold readers_ok.
+  { intros p Hp. specialize (C p Hp). unfold readers_ok.
     rewrite forallb_forall in *. intros o Ho. specialize (C o Ho). destruct o; try discriminate.
-    simpl. rewrite W. apply orb_true_r. }
+    simpl. rewrite C, W. rewrite orb_true_r. reflexivity. }
   exact (proj1 (proj1 (EventsProofs.interleaving_race_free s progs V R) il Hil)).
 Qed.
 Print Assumptions env_cache_first_use_races_partial.
+
+(* a static that no warm-up cures: hwloc__export_synthetic_memory_children writes `warned = 1` every time
+   its warning condition holds (HWLOC_SYNTHETIC_VERBOSE set, a memory-side cache with several memory
+   children): two synthetic exports race even when each thread has already done one before *)
+Theorem synthetic_verbose_warned_races_refuted :
+  exists s, all_valid s = true /\ statics_warm (s_glob s) = true /\
+    let s1 := fst (fst (run_prog s [OCons 0 (CExportSynth true); OCons 0 (CExportSynth true)])) in
+    conflict_locs (map (events_of s1) [[OCons 0 (CExportSynth true)]; [OCons 0 (CExportSynth true)]]) <> [] /\
+    conflict_locs (map (events_of s1) [[OCons 0 (CExportSynth false)]; [OCons 0 (CExportSynth false)]]) = [].
+Proof. exists ex_state. vm_compute. repeat split; try reflexivity. discriminate. Qed.
+Print Assumptions synthetic_verbose_warned_races_refuted.
 
 (* control (outside the property, which demands the refresh): readers of an UNREFRESHED topology race
    on the distances cache - the harness uses it to show that ThreadSanitizer sees cache races *)
